@@ -337,14 +337,34 @@ void sx_main(void)
 		pthread_create(&th, NULL, loop2_main, NULL);
 	if (sx_opt("forkchild", 0)) {
 		if (fork() == 0) {
-			/* a signal in the child (before exec) must not reach the parent's interests */
-			unsigned long before = 0, after = 0;
+			/* a signal in the child (before exec) must not reach the parent's interests; the
+			 * child may go on using the library: it registers an interest of its own first */
+			unsigned long before[KMAXOBJ], own = 0;
+			static struct iv_signal mine;
+			static struct irec minerec;
+			int childuses = sx_choose(2);
 			for (i = 0; i < KMAXOBJ; i++)
-				before += keventfds[i].counter;
+				before[i] = keventfds[i].used ? keventfds[i].counter : 0;
+			if (childuses) {
+				IV_SIGNAL_INIT(&mine);
+				mine.signum = SIGA;
+				mine.flags = 0;
+				mine.cookie = &minerec;
+				mine.handler = handler;
+				sx_assert(iv_signal_register(&mine) == 0, "C10.register-in-child-failed");
+				sx_cover("signal.child-registers-own-interest");
+			}
 			raise(SIGA);
-			for (i = 0; i < KMAXOBJ; i++)
-				after += keventfds[i].counter;
-			sx_assert(before == after, "C10.child-signal-woke-parent-interest");
+			for (i = 0; i < KMAXOBJ; i++) {
+				if (childuses && keventfds[i].used && kfds[mine.ev.event_rfd.fd].obj == i) {
+					own = keventfds[i].counter;
+					continue;
+				}
+				sx_assert(!keventfds[i].used || keventfds[i].counter == before[i],
+					  "C10.child-signal-woke-parent-interest");
+			}
+			if (childuses)
+				sx_assert(own > 0, "C10.child-own-interest-not-woken");
 			sx_cover("signal.child-does-not-trigger-parent");
 			sx_end();
 		}
